@@ -33,7 +33,8 @@ def toInputV (env : EnvV) (desc : ocispec.Descriptor) (signature : «notation».
     parseOk := true, integrityOk := true, payloadTypeOk := true, rest := ps.1.isNone,
     decoded := if um.1.isNone then some (descOf um.2) else none,
     artifact := descOfD desc, hashSupported := true, required := opts.UserMetadata,
-    reader := "", viaRegistry := false, refDigest := none, resolveOk := true, refForm := "", plugin := false }
+    reader := "", viaRegistry := false, refDigest := none, resolveOk := true, refForm := "", plugin := false,
+    blobLen := 0, boundary := 0 }
 
 /-- what the tie compares: was an error returned, and does the returned outcome carry one -/
 def viewV (r : Option verifier.«notation».VerificationOutcome × Option GoLite.Err) : Bool × Option Bool :=
